@@ -4,6 +4,7 @@ import TnVerif.Model.Eval
 import TnVerif.Model.Arith
 import TnVerif.Model.Format
 import TnVerif.Model.Index
+import TnVerif.Model.Assign
 /-
   Line-protocol driver (DESIGN §2.6).  One request per line on stdin, one answer per line on
   stdout.  Tokens are separated by blanks; numbers are integers or `p/q`.
@@ -203,6 +204,23 @@ def run (cmd : String) : PM String := do
       | .error e => return "err " ++ showErr e
       | .ok (.inl r) => return "ok " ++ showTensor r
       | .ok (.inr x) => return "ok S " ++ showQ x
+  | "setitem_scalar" => do
+      let c ← pQ; let key ← pKey; let t ← pTensor
+      match t.setitem key (.scalar c) with
+      | .error e => return "err " ++ showErr e
+      | .ok r => return "ok " ++ showTensor r
+  | "setitem_dense" => do
+      let shape ← pNatList
+      let a ← pArr shape.prod
+      let key ← pKey; let t ← pTensor
+      match t.setitem key (.dense shape (fun k => a.getD k 0)) with
+      | .error e => return "err " ++ showErr e
+      | .ok r => return "ok " ++ showTensor r
+  | "setitem_tensor" => do
+      let v ← pTensor; let key ← pKey; let t ← pTensor
+      match t.setitem key (.tensor v) with
+      | .error e => return "err " ++ showErr e
+      | .ok r => return "ok " ++ showTensor r
   | _ => throw s!"unknown command {cmd}"
 
 def handle (line : String) : String :=
